@@ -902,3 +902,10 @@ Fixpoint lb_run (st : lbstate) (ops : list lbop) : lbres :=
   end.
 
 Definition lb_code_op (o : lbop) : bool := match o with LReadNoCopy _ _ => false | _ => true end.
+
+(* ---- go-corelib ios.LineCountingReader (idr/jsonreader.go: the "before/near line N" of JSON errors) *)
+(* It counts the '\n' of every chunk its consumer has READ -- the json decoder reads ahead, so the
+   count at the time a token is handed out depends on the chunking (known finding F30). *)
+Definition count_nl (b : bytes) : nat := length (filter (Byte.eqb NL) b).
+Definition lcr_read (st : nat * source) (cap : nat) : rres * (nat * source) :=
+  let '((c, oe), s') := io_read (snd st) cap in ((c, oe), (fst st + count_nl c, s')).
